@@ -647,7 +647,7 @@ def gen_run_case(rnd, big):
 
 def cases(tier, rnd):
     big = tier == "thorough"
-    mult = 6 if big else 1
+    mult = 14 if big else 1
     out = []
     for _ in range(20 * mult):
         out.append(gen_lru_case(rnd))
